@@ -92,6 +92,13 @@ Theorem C04_gen_more_types_refine_block_tlb :
   forallb (fun p => ok (fst (snd p)) (snd (snd p))) more_obligations = true.
 Proof. vm_compute. reflexivity. Qed.
 
+(* persistent data of the wallet contracts (the data cell of their state-init) *)
+Theorem C04_gen_wallet_data_refine :
+  forallb (fun p => ok (fst p) (snd p))
+    [(s_WalletDataV1V2, d_wallet_DataV1V2); (s_WalletDataV3, d_wallet_DataV3); (s_WalletDataV4, d_wallet_DataV4);
+     (s_WalletDataHighloadV2, d_wallet_DataHighloadV2); (s_WalletDataV5R1, d_wallet_DataV5R1)] = true.
+Proof. vm_compute. reflexivity. Qed.
+
 (** Where a symmetric edit (swapped fields, changed width or tag on both sides) would be
     invisible: the struct / union types of package tlb that have a descriptor but NO schema
     obligation.  The list is printed on every run and may not grow silently. *)
